@@ -39,17 +39,20 @@ Print Assumptions C20_decode_empty_succeeds.
 From PVGen Require Import Lit LitSpec LitClass Proofs.LitNum Proofs.LitP Proofs.LitTopP.
 
 (* the arm lists of lit_into_ty / lit_as_rvalue / ident_into_ty regenerated from the Rust source are, arm for arm and in
-   source order, the lists the model was written against (a removed / merged / added / reordered arm breaks this) *)
+   source order, the lists the model was written against (a removed / merged / added / reordered arm breaks this); the enum
+   default BY NUMBER names the member it found by the member's own path, as the enum's definition does (a path spelled from the
+   raw member name -- wrong under pilota.name, change_case(false) and for names that collide after case conversion -- breaks it) *)
 Theorem C20_arm_tables :
   lit_into_ty_arms = model_lit_into_ty_arms ++ (if string_at_bytesvec_ok then [strvec_into_arm] else []) ++ [arc_into_arm] /\
   lit_as_rvalue_arms = [ ([(LPMap, CPLazyStaticRef)], FFalse); ([(LPMap, CPMap)], FFalse); ([(LPMap, CPBTreeMap)], FFalse);
                          ([(LPList, CPLazyMap)], FFalse); ([(LPList, CPLazyStaticRef)], FFalse);
                          ([(LPList, CPMap)], FFalse); ([(LPList, CPBTreeMap)], FFalse) ] /\
   ident_into_ty_arms = model_ident_into_ty_arms ++ [([(CPAny, CPArc)], FFalse)] /\
-  int_float_casts = [(CPF32, CPF32); (CPF64, CPF64); (CPOrderedF64, CPF64)] /\ int_bool_test = (true, 0).
+  int_float_casts = [(CPF32, CPF32); (CPF64, CPF64); (CPOrderedF64, CPF64)] /\ int_bool_test = (true, 0) /\
+  enum_number_member_path = true.
 Proof.
   exact (conj lit_into_ty_arms_pinned (conj lit_as_rvalue_arms_pinned (conj ident_into_ty_arms_pinned
-           (conj (proj1 lit_scalars_pinned) (proj1 (proj2 lit_scalars_pinned)))))).
+           (conj (proj1 lit_scalars_pinned) (conj (proj1 (proj2 lit_scalars_pinned)) enum_number_member_path_pinned))))).
 Qed.
 Print Assumptions C20_arm_tables.
 
